@@ -48,13 +48,14 @@ type Proxy struct {
 	small   bool          // small kernel receive buffers on both legs (back-pressure reaches the peers quickly)
 	conns   map[*pconn]struct{}
 
-	Accepted atomic.Int64
-	Live     atomic.Int64
-	HighLive atomic.Int64
-	Bytes    [2]atomic.Int64 // forwarded bytes per direction (all connections)
-	paused   [2]atomic.Int64 // unix nanos until which forwarding in that direction is suspended
-	CutAt    atomic.Int64    // unix nanos of the last injected cut
-	closed   atomic.Bool
+	Accepted     atomic.Int64
+	Live         atomic.Int64
+	HighLive     atomic.Int64
+	Bytes        [2]atomic.Int64  // forwarded bytes per direction (all connections)
+	paused       [2]atomic.Int64  // unix nanos until which forwarding in that direction is suspended
+	pauseChanged [2]chan struct{} // closed (and replaced) whenever the pause of that direction changes
+	CutAt        atomic.Int64     // unix nanos of the last injected cut
+	closed       atomic.Bool
 }
 
 type pconn struct {
@@ -142,7 +143,27 @@ func (p *Proxy) SetSmallBuffers(on bool) {
 // connection for d: bytes are neither lost nor reordered, the sender simply experiences back-pressure
 // (its socket buffers, then its write queue, fill up).
 func (p *Proxy) PauseDir(dir int, d time.Duration) {
-	p.paused[dir].Store(time.Now().Add(d).UnixNano())
+	p.mu.Lock()
+	if d <= 0 {
+		p.paused[dir].Store(0)
+	} else {
+		p.paused[dir].Store(time.Now().Add(d).UnixNano())
+	}
+	// wake the forwarders that sleep on the old deadline
+	if p.pauseChanged[dir] != nil {
+		close(p.pauseChanged[dir])
+	}
+	p.pauseChanged[dir] = make(chan struct{})
+	p.mu.Unlock()
+}
+
+func (p *Proxy) pauseChangedChan(dir int) chan struct{} {
+	p.mu.Lock()
+	defer p.mu.Unlock()
+	if p.pauseChanged[dir] == nil {
+		p.pauseChanged[dir] = make(chan struct{})
+	}
+	return p.pauseChanged[dir]
 }
 
 // Hold makes the proxy accept connections without forwarding a byte until Release: the
@@ -270,6 +291,7 @@ func (pc *pconn) pipe(dir int, src, dst net.Conn) {
 			return
 		}
 		for {
+			changed := pc.p.pauseChangedChan(dir)
 			until := pc.p.paused[dir].Load()
 			wait := time.Until(time.Unix(0, until))
 			if until == 0 || wait <= 0 {
@@ -277,6 +299,7 @@ func (pc *pconn) pipe(dir int, src, dst net.Conn) {
 			}
 			select {
 			case <-time.After(wait):
+			case <-changed:
 			case <-pc.undeaf:
 				return
 			}
